@@ -46,7 +46,8 @@ class _IMTLGWeighting(_Weighting):
             v = torch.ones(matrix.shape[0], device=matrix.device, dtype=matrix.dtype)
 
         v_sum = v.sum()
-        if v_sum.abs() < 1e-12:
+        # v scales like the inverse of the matrix: compare scale-free quantities
+        if (v_sum * d.max()).abs() < 1e-12:
             weights = torch.zeros_like(v)
         else:
             weights = v / v_sum
